@@ -350,10 +350,9 @@ def run_inventory(F, rep, tier, pid, roots, floors, what):
     audits = load_audits()
     # the LALR driver proof feeds the driver family
     driver_ok = False
-    if pid == "C05":
-        _, T, _ = load_lalr(F, rep, r1)
-        if T is not None:
-            driver_ok = all(ok for ok, _ in driver_index_proof(T).values())
+    _, T, _ = load_lalr(F, rep, r1)
+    if T is not None:
+        driver_ok = all(ok for ok, _ in driver_index_proof(T).values())
     nsites = 0
     by_rule = defaultdict(int)
     used_audits = set()
@@ -530,6 +529,31 @@ def edge_class(F, G, caller, callee, bi):
     return "same"
 
 
+EVALUATOR_SIG = "dyn core::ops::function::Fn(&dmntk_feel::scope::Scope) -> dmntk_feel::values::Value + core::marker::Send + core::marker::Sync"
+
+
+def on_registry_cycle(F, G, n, comp):
+    """is there a cycle n ->+ n inside `comp` that does not pass through a call of a generic FEEL evaluator closure (`dyn Fn(&Scope) -> Value`)?
+    Those calls are resolved by signature only; the model-level reference cycles go through the registries' own closure types and direct calls."""
+    seen = set()
+    work = [n]
+    first = True
+    while work:
+        v = work.pop()
+        for e in G.edges.get(v, ()):
+            w = e[1]
+            if w not in comp:
+                continue
+            if e[0] == "dyn" and G.deferred.get(w, set()) <= {EVALUATOR_SIG}:
+                continue
+            if w == n:
+                return True
+            if w not in seen:
+                seen.add(w)
+                work.append(w)
+    return False
+
+
 def recursion_rule(F, G, rep, rid, seen, pid):
     comps = [c for c in sccs(G, seen) if len(c) > 1 or any(e[1] == c[0] for e in G.edges.get(c[0], ()))]
     rep.analysed["recursive_components"] = len(comps)
@@ -550,8 +574,20 @@ def recursion_rule(F, G, rep, rid, seen, pid):
             if pid == "C05":
                 rep.violation(rid, "userfn-recursion", "evaluation recursion through function values is unbounded: a recursive user-defined FEEL function overflows the stack "
                               "(%d bodies in the cycle, e.g. %s)" % (len(comp), [c.split("::")[-1] for c in comp[:4]]), where)
-            else:
-                rep.violation(rid, "eval-recursion:%s" % rep_name, "evaluation-time recursion through evaluator closures (%d bodies)" % len(comp), where)
+                continue
+            # model level: the registries are looked up by identifier / type reference and then called: reference-following recursion
+            regs = [n for n in comp if re.search(r"dmntk_model_evaluator::builders::\w+::\w+Evaluator::(eval|evaluate)$", n) and on_registry_cycle(F, G, n, cs)]
+            for n in regs:
+                short = "::".join(n.split("::")[-2:])
+                rep.violation(rid, "refrec:%s" % short, "%s looks a model element up by reference and evaluates it, and can be reached again from that evaluation: "
+                              "cyclic references between model elements recurse without bound (no cycle detection at build time)" % n, "%s:%s" % (F.bodies[n]["file"], F.bodies[n]["line"]))
+            if not regs:
+                if any(n == "dmntk_feel::function::FunctionBody::evaluate" for n in comp):
+                    rep.ok(rid, key, "FEEL-level recursion through function values: decided under C05 (known finding there)", how="audited")
+                else:
+                    rep.violation(rid, "eval-recursion:%s" % rep_name, "evaluation-time recursion through evaluator closures (%d bodies)" % len(comp), where)
+            elif any(n == "dmntk_feel::function::FunctionBody::evaluate" for n in comp):
+                rep.note("the FEEL-level part of this cycle (user function values) is C05's known finding")
             continue
         if all(F.bodies[n].get("from_expansion") for n in comp):
             rep.ok(rid, key, "compiler-derived impl(s): structural recursion over the fields of an owned type")
